@@ -12,6 +12,9 @@ Input classes (all inside the property's quantifier "all finite real sequences o
       wide mantissas, long offsets);
 * K1  the same sequence spelled differently: list / tuple / deque / generator / iterator / array.array / pandas Series, Python
       ints, numpy scalars, -0.0, ndarrays of every float and integer dtype, non-contiguous / reversed / column / read-only views;
+      fixed-width numpy integers NOT as one ndarray (list / tuple / deque of numpy scalars, iterator / generator over an integer
+      array, itertools.chain of two or more blocks, pandas Series, strided view, object array, Python and numpy integers mixed),
+      with values up to the limits of the dtype (swings larger than its range, any descent in unsigned data);
       the end-point option by keyword, positionally, left out, or as a numpy bool;
 * K2  histories on ONE caller-owned array / list / TimeSeries: repeated calls, the other end-point setting in between, the
       returned table scribbled over, in-place changes of the data between calls, interleaved `reversals` generators,
@@ -38,8 +41,9 @@ RULE = ("sequences: all words over {0,1,2,3} up to the tier's length x endpoints
         "near-tie sequences (small-integer words whose points are moved by +-2^-k, k = 8..44, so that adjacent ranges differ by a "
         "relative 1e-3..1e-13 without being equal; also the whole sequence scaled by 2^j, j = -80..80: tiny and huge magnitudes); "
         "plus words scaled by 2^+-(100..200), quantised signals with 30-45 significant bits, records of 200-400 samples; "
-        "each sequence also in another spelling (container, element type, dtype, view; end-point option by keyword / position / "
-        "default / numpy bool), in histories on one array / list / TimeSeries object (repeated and interleaved calls, in-place "
+        "each sequence also in another spelling (container, element type, dtype, view; fixed-width integers as ndarray, containers "
+        "of numpy scalars, iterators / generators / chained blocks over integer arrays, values up to the dtype's limits; "
+        "end-point option by keyword / position / default / numpy bool), in histories on one array / list / TimeSeries object (repeated and interleaved calls, in-place "
         "changes, scribbled results, time windows, no-op options, half-step resampling, calculate_rfc), and arbitrary binary64 "
         "signals against an independent reference with tolerance; "
         "non-trivial = yields at least one cycle; distinct by (endpoints, sequence)")
@@ -355,6 +359,13 @@ INT_RANGE = {"int8": (-2 ** 7, 2 ** 7 - 1), "int16": (-2 ** 15, 2 ** 15 - 1), "i
              "int64": (-2 ** 63, 2 ** 63 - 1), "uint8": (0, 2 ** 8 - 1), "uint16": (0, 2 ** 16 - 1), "uint32": (0, 2 ** 32 - 1),
              "uint64": (0, 2 ** 64 - 1)}
 EP_SPELLINGS = ("kw", "pos", "default", "np.bool_")
+# ways of handing over fixed-width integer samples other than as one contiguous ndarray ("<outer>:<dtype>")
+INT_OUTERS = ("list:np", "tuple:np", "deque:np", "iter", "generator", "chain", "chain3", "pandas.Series", "view:stride2", "tolist+np",
+              "object-array")
+
+
+def int_name(outer, dt):
+    return outer + "." + dt if outer.endswith(":np") else outer + ":" + dt
 
 
 def exact_in_float32(seq):
@@ -381,7 +392,12 @@ def spellings_for(seq):
     if all(v.denominator == 1 for v in seq):
         names += ["list:int", "tuple:int", "list:mixed", "list:np.int64", "array.array:q", "pandas.Series:int64"]
         lo, hi = min(seq), max(seq)
-        names += ["ndarray:" + k for k, (a, b) in INT_RANGE.items() if a <= lo and hi <= b]
+        fits = [k for k, (a, b) in INT_RANGE.items() if a <= lo and hi <= b]
+        names += ["ndarray:" + k for k in fits]
+        # the same fixed-width integers NOT as one ndarray: containers of numpy scalars, iterators / generators / chained blocks
+        # over integer arrays, pandas Series of that dtype, views of an integer array
+        names += [nm for nm in (int_name(outer, k) for k in fits for outer in INT_OUTERS) if nm not in names]
+    names += ["chain:float64", "chain:list+ndarray", "map:float"]
     return names
 
 
@@ -389,7 +405,7 @@ def int_wraps(name, seq):
     """the samples arrive as fixed-width numpy integers, and some difference or sum of two samples, or the product of two
     differences (the slope test of `reversals`), is not representable in that width (unsigned: any descent)"""
     dt = name.split(":")[-1].replace("np.", "")
-    if name.split(":")[0] not in ("ndarray", "list", "pandas.Series") or dt not in INT_RANGE:
+    if dt not in INT_RANGE or name in ("array.array:q",):
         return False
     a, b = INT_RANGE[dt]
     vals = [Fraction(v) for v in seq]
@@ -419,6 +435,55 @@ def container(name, seq):
     if name.startswith("list:np."):
         t = getattr(np, sub[3:])
         return lambda: [t(v) for v in (fl if "float" in sub else [int(v) for v in fr])]
+    dt = name.rsplit(":", 1)[-1].replace("np.", "")
+    if dt in INT_RANGE and kind != "ndarray" and name != "pandas.Series:int64":
+        outer, last = name.rsplit(":", 1)
+        if last.startswith("np."):
+            outer += ":np"
+        iv = [int(v) for v in fr]
+
+        def arr():
+            return np.array(iv, dtype=dt)
+        cut = max(1, len(iv) // 2)
+        if outer == "tuple:np":
+            return lambda: tuple(arr())
+        if outer == "deque:np":
+            return lambda: deque(arr())
+        if outer == "iter":
+            return lambda: iter(arr())
+        if outer == "generator":
+            return lambda: (v for v in arr())
+        if outer == "chain":                         # a record kept in two blocks
+            return lambda: itertools.chain(arr()[:cut], arr()[cut:])
+        if outer == "chain3":                        # blocks of different container types, one of them empty
+            return lambda: itertools.chain(list(arr()[:1]), arr()[:0], arr()[1:cut], tuple(arr()[cut:]))
+        if outer == "pandas.Series":
+            import pandas as pd
+            return lambda: pd.Series(arr(), index=range(3, 3 + len(iv)))
+        if outer == "view:stride2":
+            def mk():
+                a = np.zeros(2 * len(iv), dtype=dt)
+                a[0::2] = iv
+                return a[::2]
+            return mk
+        if outer == "tolist+np":                     # Python ints and numpy integers mixed
+            return lambda: [v if i % 2 else v.item() for i, v in enumerate(arr())]
+        if outer == "object-array":                  # ndarray of dtype object holding numpy integer scalars
+            def mk():
+                a = np.empty(len(iv), dtype=object)
+                for i, v in enumerate(arr()):
+                    a[i] = v
+                return a
+            return mk
+        raise ValueError("unknown spelling " + name)
+    if name == "chain:float64":
+        cut = max(1, len(fl) // 2)
+        return lambda: itertools.chain(np.array(fl[:cut]), np.array(fl[cut:]))
+    if name == "chain:list+ndarray":
+        cut = max(1, len(fl) // 2)
+        return lambda: itertools.chain(fl[:cut], [], np.array(fl[cut:]))
+    if name == "map:float":
+        return lambda: map(float, fr)
     if name == "ndarray:readonly":
         def mk():
             a = np.array(fl)
@@ -524,8 +589,8 @@ def gen_spellings(chk, cases):
     picked = [pool[i] for i in range(min(len(pool), 40))] + [rng.choice(pool) for _ in range(n)]
     for k, (seq, ep) in enumerate(picked):
         names = spellings_for(seq)
-        # fixed-width integer containers in which a difference wraps are generated apart (below)
-        names = [nm for nm in names if not int_wraps(nm, seq)]
+        # (fixed-width integer containers in which a difference / sum / product of slopes would wrap are included: every
+        # narrow or unsigned dtype that can hold the values, e.g. any descent in unsigned data)
         name = names[(k + rng.randrange(3)) % len(names)]
         ep_as = rng.choice(["kw", "pos"] if ep else list(EP_SPELLINGS))      # np.bool_(True) is generated apart (below)
         yield seq, ep, name, ep_as
@@ -533,17 +598,25 @@ def gen_spellings(chk, cases):
     for _ in range(8 if chk.quick else 60):
         seq, _ep = rng.choice(pool)
         yield seq, True, rng.choice(["list:float", "ndarray:float64", "tuple:float"]), "np.bool_"
-    # integer samples close to the limits of their dtype, and unsigned integers
-    for _ in range(24 if chk.quick else 200):
+    # integer samples close to the limits of their dtype, and unsigned integers: as one ndarray and as every other iterable
+    # that yields fixed-width numpy integers (swings between turning points larger than the dtype's range)
+    outers = ("ndarray",) + INT_OUTERS
+    for k in range(150 if chk.quick else 1500):
         dt = rng.choice(["int8", "int16", "int32", "uint8", "uint16", "uint32", "uint64"])
-        ln = rng.choice([3, 4, 5, 7, 10])
+        ln = rng.choice([3, 4, 5, 7, 10, 16])
+        lo, hi = INT_RANGE[dt]
+        r = rng.random()
         if dt.startswith("u"):
-            top = rng.choice([5, 200, INT_RANGE[dt][1]])
+            top = rng.choice([5, 200, hi])
             seq = [Fraction(rng.randint(0, min(top, 2 ** 50))) for _ in range(ln)]
-        else:
-            step = INT_RANGE[dt][1] // 3
+        elif r < 0.5:
+            step = hi // 3
             seq = [Fraction(rng.randint(-3, 3) * step) for _ in range(ln)]
-        yield seq, rng.random() < 0.5, "ndarray:" + dt, rng.choice(["kw", "pos"])
+        elif r < 0.8:                                                          # alternating near the two limits
+            seq = [Fraction((-1) ** i * (hi - rng.randint(0, hi // 8))) for i in range(ln)]
+        else:                                                                  # the limits themselves
+            seq = [Fraction(rng.choice([lo, hi, 0, lo + 1, hi - 1, -1, 1])) for _ in range(ln)]
+        yield seq, rng.random() < 0.5, int_name(outers[k % len(outers)], dt), rng.choice(["kw", "pos"])
 
 
 def check_spelled(chk, seq, ep, name, ep_as, model):
